@@ -22,12 +22,15 @@ RULES = {
     "R7": "IR state is authoritative for a proto-backed object (shared with C02-R4): after a whole-message CopyFrom, a "
           "repeated field that the serializer re-writes from the IR object is cleared on every path, so entries removed "
           "from the IR object do not reappear from the copied proto",
+    "R8": "no early exit of a writer bypasses a field write (shared with C02-R7): a `return` inside a serialize function "
+          "skips no proto field write whose value is independent of what the return's guard tested - e.g. the denotation of "
+          "an unknown dimension must still be written",
     "R5": "scope precedence (shared rule S2): every lookup over the deserializer's stack of per-graph name tables lets the "
           "innermost binding win — first hit of a reversed scan, last write of a forward merge, ChainMap of the reversed "
           "stack — so a name that shadows an outer one is bound to the value of its own graph after a round trip",
     "R4": "determinism: no serialize function iterates a set-typed expression",
 }
-FLOORS = {"R1": 30, "R2": 40, "R3": 2, "R4": 30, "R5": 2, "R6": 1, "R7": 1}
+FLOORS = {"R1": 30, "R2": 40, "R3": 2, "R4": 30, "R5": 2, "R6": 1, "R7": 1, "R8": 6}
 EXPLANATION = (
     "Effect summaries (writes on non-proto, non-fresh objects, class-qualified) of every serialize function; "
     "comparison of the attribute sets read by the serializer and supplied by the deserializer per IR class; "
@@ -291,3 +294,4 @@ def run(ctx):
     from . import c02
 
     c02.rule_r4(ctx, rule="R7")
+    c02.rule_r7(ctx, rule="R8")
